@@ -80,16 +80,17 @@ def main():
         tot["chains"] += e.get("chains", 0)
         for v in e.get("viols", []):
             rep.violation({"layer": "primitive", "op": e["op"], "verdict": v["verdict"], "ckind": v["cursor"].split()[0],
-                           "detail": v["detail"].split(":")[0][:40]},
+                           "detail": v["detail"].split(":")[0][:40], "fact_guard": e["facts"].get("guard")},
                           {"prog": e["prog"], "op": e["op"], "args": e["args"], "cursor": v, "text_a": e["text_a"],
                            "text_b": e["text_b"]})
         for v in e.get("chain_viols", []):
             rep.violation({"layer": "chain", "op": e["op"], "verdict": v["verdict"], "ckind": v["cursor"].split()[0],
-                           "second": v["second"].split("(")[0], "detail": v["detail"].split(":")[0][:40]},
+                           "second": v["second"].split("(")[0], "detail": v["detail"].split(":")[0][:40],
+                           "fact_guard": e["facts"].get("guard")},
                           {"prog": e["prog"], "op": e["op"], "args": e["args"], "cursor": v, "text_a": e["text_a"],
                            "text_b": e["text_b"]})
         for v in e.get("implicit_mismatch", []):
-            rep.violation({"layer": "implicit", "op": e["op"], "second": v["op"]},
+            rep.violation({"layer": "implicit", "op": e["op"], "second": v["op"], "fact_guard": e["facts"].get("guard")},
                           {"prog": e["prog"], "op": e["op"], "args": e["args"], "mismatch": v, "text_b": e["text_b"]})
         if len(rep.cov["samples"]) < 5 and e.get("counts"):
             rep.sample({"prog": e["prog"], "op": e["op"], "args": e["args"], "cursor_verdicts": e["counts"]})
